@@ -82,6 +82,22 @@ where
     returns `None`.
     */
     fn current(&self) -> Option<(&Self::Key, &Vec<u8>)>;
+
+    /**
+    Return the error that ended a cursor movement, if there was one.
+
+    `next` and `prev` cannot return an error, so an iterator that reads from persistent storage
+    becomes invalid when a read fails. Callers that need to tell an exhausted iterator from a
+    failed one (e.g. compactions and full scans) must check this status once the iterator turns
+    invalid. Iterators that cannot fail keep the default implementation.
+
+    # Legacy
+
+    This is synonomous to LevelDB's `Iterator::status`.
+    */
+    fn status(&self) -> Option<Self::Error> {
+        None
+    }
 }
 
 /**
@@ -181,6 +197,10 @@ impl RainDbIterator for CachingIterator {
 
     fn current(&self) -> Option<(&Self::Key, &Vec<u8>)> {
         self.cached_entry.as_ref().map(|entry| (&entry.0, &entry.1))
+    }
+
+    fn status(&self) -> Option<Self::Error> {
+        self.iterator.status()
     }
 }
 
@@ -586,5 +606,9 @@ impl RainDbIterator for DatabaseIterator {
                 ));
             }
         }
+    }
+
+    fn status(&self) -> Option<Self::Error> {
+        self.inner_iter.status()
     }
 }
